@@ -1,9 +1,13 @@
-\* C18, code as it stands, STRICT property: this configuration is EXPECTED TO FAIL - TLC exhibits
-\* the lifted ban (BanHolds violated through deviation tempOverPerm after 9 steps, and - with
-\* Fixed = {"order"} - through unbanLive: the `go UnbanIP` spawned for an expired ban runs after the
-\* address was banned again and deletes the new ban). It is documentation, not part of ./check;
-\* the same counterexamples are generated as behaviours by BruteForce_gen.cfg with EmitActs {"dev"}
-\* and replayed on the real code.   tlc -config BruteForce_asis_strict.cfg BruteForce.tla
+\* C18, code as it stands, STRICT property: this configuration is EXPECTED TO FAIL - TLC exhibits the
+\* lifted ban.  As written: BanHolds violated after 11 steps through deviation tempOverPerm (two
+\* handshakes in flight: the one that decided "temporary" records its ban after the one that decided
+\* "permanent").  With Fixed = {"order"}: BanHolds violated through unbanLive (the `go UnbanIP`
+\* spawned for an expired ban runs after the address was banned again and deletes the new ban).
+\* With Acts = {"Blk", "Query", "Tick", "Unbl"} and INVARIANTS BlacklistHolds: the same shape for
+\* `go RemoveFromBlacklist` (unblLive).  With Fixed = {"unban", "unbl", "order"} everything passes.
+\* Documentation only, not part of ./check: the same counterexamples are generated as behaviours
+\* by BruteForce_gen.cfg with EmitActs {"dev"} and replayed on the real code.
+\*     tlc -config BruteForce_asis_strict.cfg BruteForce.tla
 CONSTANTS
   IPs = {"a"}
   Procs = {"h1", "h2"}
@@ -18,7 +22,7 @@ CONSTANTS
   MaxTotal = 4
   MaxPend = 2
   MaxAdm = 4
-  Acts = {"Bad", "Query", "Tick", "Unban", "MUnban", "Blk", "Unbl"}
+  Acts = {"Bad", "Query", "Tick", "Unban", "MUnban"}
   Atomic = FALSE
   Fixed = {}
   EmitActs = {}
